@@ -50,6 +50,8 @@ CHECKS = {
          "The design is the first model of the file unless an instantiated black box precedes it; latch 'type'/'init-val' fields are not nets; .cname values are not net names."),
  "C20": ("disk+hier", "C", "Seeded search: a named netlist, a faithful copy (clone, write-then-read in its own format, or parsing the same file twice), one Comparer run that must return, exactly one effective structural fault from the documented list on the copy, one Comparer run that must raise.",
          "Names contain no wildcard characters; designs avoid the open EDIF round-trip findings so that copies are faithful."),
+ "C15": ("corrupt", "A", "Seeded search over fault plans on valid EDIF/Verilog/EBLIF texts (truncation at a token boundary or at any character, token deletion/duplication/replacement, dangling EDIF references, unsupported EDIF constructs, EIO on the r-th read, short reads); every reader call runs under a virtual step budget (50x the fault-free line count); results that are returned must be well-formed, must-raise cases must raise, process-wide settings must be unchanged after success and after rejection, and after 0-4 follow-up parses and edits a fixed probe script must behave as in a fresh process. The thorough tier adds complete single-fault sweeps (every token boundary / every token) over generated texts of at most 400 tokens.",
+         "Any exception counts as 'raising an error'; the step budget counts executed lines of the tokenizer/parser modules (sys.monitoring); a wall-clock backstop is a harness error, never a violation."),
 }
 
 def main():
